@@ -245,6 +245,8 @@ impl Violation {
         })
     }
     pub fn key(&self) -> String {
-        format!("{}|{}|{}|{}|{}", self.prop, self.class, self.site, self.case.proto.name(), self.case.level.class())
+        // allocation sites carry the request size in brackets: not part of the identity
+        let site = self.site.split(" [").next().unwrap_or("");
+        format!("{}|{}|{}|{}|{}", self.prop, self.class, site, self.case.proto.name(), self.case.level.class())
     }
 }
